@@ -350,3 +350,68 @@ func mismatchIffInvalid(c *core.Ctx, r *core.Rule) {
 	}
 	r.Check(ok, key, p.InstrPos(app), "a mismatch is recorded exactly under !Valid", "the mismatch list is not filled under the test of the layer's own Valid result: layers that legitimately carry no checksum (UDP with checksum 0, GRE without the checksum bit) report Valid with Actual != Correct and are now listed as mismatches, or invalid ones are skipped")
 }
+
+// noVacuousRangeTests (R13.13): a security check of the defragmenters that
+// compares a value with the maximum of the value's own type can never fire:
+// `a + b > 65535` evaluated in uint16 wraps before the comparison.  Every
+// ordering comparison of a uint8/uint16 expression with a constant at or above
+// the type's maximum (for >) is reported.
+func noVacuousRangeTests(c *core.Ctx, r *core.Rule) {
+	p := c.P
+	n, bad := 0, 0
+	for _, pkg := range []string{"ip4defrag", "ip6defrag"} {
+		for _, fn := range pkgFunctions(p, pkg) {
+			k := 0
+			core.Instrs(fn, func(ins ssa.Instruction) {
+				bo, ok := ins.(*ssa.BinOp)
+				if !ok {
+					return
+				}
+				var x, y ssa.Value
+				op := bo.Op
+				switch op {
+				case token.GTR, token.GEQ:
+					x, y = bo.X, bo.Y
+				case token.LSS, token.LEQ:
+					x, y = bo.Y, bo.X
+					if op == token.LSS {
+						op = token.GTR
+					} else {
+						op = token.GEQ
+					}
+				default:
+					return
+				}
+				kc, isK := core.ConstInt(y)
+				if !isK {
+					return
+				}
+				bt, ok := x.Type().Underlying().(*types.Basic)
+				if !ok {
+					return
+				}
+				var max int64
+				switch bt.Kind() {
+				case types.Uint8:
+					max = 255
+				case types.Uint16:
+					max = 65535
+				default:
+					return
+				}
+				n++
+				if (op == token.GTR && kc >= max) || (op == token.GEQ && kc > max) {
+					bad++
+					k++
+					r.Violate(fmt.Sprintf("%s/vacuous-range-test#%d", core.FnKey(fn), k), p.InstrPos(ins), fmt.Sprintf("a %s value is tested for being greater than %d, which it can never be: the sum was computed in %s and wrapped before the comparison, so the check that should reject fragments reaching beyond the maximum datagram size never rejects anything — an oversize fragment set is accepted and reassembled with wrapped offsets", bt.Name(), kc, bt.Name()), nil)
+				}
+			})
+		}
+	}
+	c.Counts["narrow_range_tests"] = n
+	if n < 1 {
+		r.Missing("defrag/narrow range tests", fmt.Sprintf("only %d found", n))
+	} else if bad == 0 {
+		r.OK("defrag/no-vacuous-range-tests", "", fmt.Sprintf("%d comparisons of narrow unsigned values with constants, none vacuous", n))
+	}
+}
